@@ -4,6 +4,7 @@ mod gen;
 mod notation;
 mod p_codec;
 mod p_hex;
+mod p_misc;
 use fw::*;
 
 fn exec(line: &str, model: &mut Model) -> Option<Exec> {
@@ -13,12 +14,14 @@ fn exec(line: &str, model: &mut Model) -> Option<Exec> {
     }
     match op {
         "enc" | "dec" | "spec.enc" | "spec.dec" | "crcok" | "crc16" | "crc32" => p_codec::exec(line, model),
+        _ if op.starts_with("eid.") || op.starts_with("time.") || op.starts_with("adm.") || op == "ts.string" => p_misc::exec(line, model),
+        "validate" | "id" | "idpair" | "info" | "upd" | "seq" => p_misc::exec(line, model),
         _ => None,
     }
 }
 
 fn main() {
-    std::panic::set_hook(Box::new(|_| {}));
+    install_panic_hook();
     let args: Vec<String> = std::env::args().collect();
     let mut prop = String::new();
     let mut tier = "quick".to_string();
@@ -88,6 +91,7 @@ fn main() {
         match prop.as_str() {
             "C18" => p_hex::generate(&mut ctx, &mut rep, &mut emit),
             "C01" | "C02" | "C03" | "C04" => p_codec::generate(&prop, &mut ctx, &mut rep, &mut emit),
+            "C07" | "C08" | "C10" | "C11" | "C12" | "C13" | "C17" => p_misc::generate(&prop, &mut ctx, &mut rep, &mut emit),
             _ => { eprintln!("unknown property {}", prop); std::process::exit(2); }
         }
     }
